@@ -11,7 +11,7 @@ from harness.core import Check, Outcome, SubCheck
 def fifo_case(draw, broker):
     prio = draw(st.sampled_from([0, 5, 5, 9]))
     foreign = draw(st.booleans())
-    mode = draw(st.sampled_from(["drain", "drain", "interleaved", "rejects", "foreign-run", "pause"]))
+    mode = draw(st.sampled_from(["drain", "drain", "interleaved", "rejects", "foreign-run", "pause", "racing"]))
     ops = []
     # other priority levels in the same queue: first-in first-out is demanded inside each level, whatever the others hold
     mixed = draw(st.integers(0, 2)) == 0
@@ -48,6 +48,21 @@ def fifo_case(draw, broker):
             for _ in range(k):
                 ops += [dict(consume), {"op": "ack", "c": 0, "i": 0}]
         for _ in range(20):
+            ops += [dict(consume), {"op": "ack", "c": 0, "i": 0}]
+    elif mode == "racing":
+        # a producer enqueues while the consumer's take is in flight (its round trips interleave with the consumer's)
+        n = draw(st.integers(2, 8))
+        enq(n)
+        ops.append(start)
+        total = n
+        for _ in range(draw(st.integers(2, 8))):
+            ops.append({"op": "launch", "c": 0})
+            k = draw(st.integers(1, 2))
+            enq(k)
+            total += k
+            ops.append({"op": "collect", "patience": {"mem": 0.2, "redis": 1.0, "amqp": 0.5}[broker]})
+            ops.append({"op": "ack", "c": 0, "i": 0})
+        for _ in range(total + 2):
             ops += [dict(consume), {"op": "ack", "c": 0, "i": 0}]
     elif mode == "pause":
         # consumption is paused and resumed while messages wait (some of them already prefetched by the consumer)
@@ -111,7 +126,8 @@ def fifo_case(draw, broker):
                 ops.append({"op": "ack", "c": 0, "i": 0})
     case = {"broker": broker, "seed": draw(st.integers(0, 2**16)), "ops": ops, "mode": mode}
     if broker != "mem":
-        case["lat"] = {"p0": [], "c0": draw(st.lists(st.sampled_from([0.0, 0.001, 0.003]), max_size=15))}
+        case["lat"] = {"p0": draw(st.lists(st.sampled_from([0.0, 0.001, 0.002]), max_size=15)) if mode == "racing" else [],
+                       "c0": draw(st.lists(st.sampled_from([0.0, 0.001, 0.003]), max_size=15))}
     return case
 
 
@@ -139,6 +155,9 @@ def run(case: dict) -> Outcome:
             stream.append(("enq", None, e))
         elif k == "consume" and "id" in e:
             stream.append(("deliver", e["id"], e))
+        elif k == "collect":
+            for got in e.get("collected", []):
+                stream.append(("deliver", got["id"], e))
         elif k in ("reject", "requeue") and e.get("done") and "id" in e:
             stream.append(("return", e["id"], e))
     seq = [(kind, e["id"] if kind == "enq" else id_) for kind, id_, e in stream]
